@@ -1,3 +1,4 @@
+import math
 import random
 from typing import Any, List, Sequence, TypeVar, cast
 
@@ -24,11 +25,15 @@ class Random:
             return random.uniform(start, end)
 
         scale_factor = 10 ** precision
-        left_number = int(start * scale_factor)
-        right_number = int(end * scale_factor)
+        left_number = math.ceil(start * scale_factor)
+        right_number = math.floor(end * scale_factor)
+        if left_number > right_number:
+            # no number with `precision` decimal places lies between start and end
+            return random.uniform(start, end)
 
         result = cast(float, self.random_int(left_number, right_number) / scale_factor)
-        return round(result, precision)
+        # the division may round across a bound by one ulp
+        return min(max(round(result, precision), start), end)
 
     def random_str(self, length: int, alphabet: str) -> str:
         return "".join(random.choice(alphabet) for _ in range(length))
